@@ -26,6 +26,7 @@ class Spec:
         self.ping_timeout = 4.0
         self.rounds = 3
         self.key = None                        # server ticket key (clients then connect with credentials)
+        self.round_gap = None                  # fixed pause between a client's rounds (None: 0.05..0.15 s)
         self.jitter = 0                        # > 0: genuine datagrams are delayed by content-addressed amounts (reordering) and a few are lost
         self.__dict__.update(kw)
 
@@ -41,11 +42,13 @@ class Spec:
         return s
 
 
-def run(spec, seed, attack=None, flood=None, probes=None):
+def run(spec, seed, attack=None, flood=None, probes=None, reconnect=None):
     """attack(sim, out, rng) installs hooks (sim.net.on_tx / scheduled injections) before the session starts.
     flood = dict(vport, version, n, size): a further, perfectly valid peer connects, makes its handler busy with one slow
     request and then sends n messages that nobody reads (a hostile peer needs no malformed traffic).
     probes = [(vport, stream type)]: a third party tries to connect, with the ordinary client, to (port, type) pairs nobody serves.
+    reconnect = dict(vport, cycles, teardown): a further valid peer whose one client transport connects, exchanges a message, closes and
+    connects again at once from the same virtual port, while the server's handler of the closed connection needs `teardown` s to return.
     Entries of spec.vports and the "vport" of a client may be (port, type) pairs (default type 10)."""
     def pt(x):
         return (x, 10) if isinstance(x, int) else tuple(x)
@@ -112,9 +115,15 @@ def run(spec, seed, attack=None, flood=None, probes=None):
         def make_handler(vport):
             async def handler(client):
                 key = (vport, client.remote_address(), client.remote_sid())
+                recon = False
                 try:
                     while True:
                         d = await client.recv()
+                        if d.startswith(b"RECON"):
+                            recon = True
+                            log.append(("app", sim.now(), "s", "send", (client.remote_address(), client.remote_sid(), 10), b"echo:" + d))
+                            await client.send(b"echo:" + d)
+                            continue
                         if d.startswith(b"FLOOD"):
                             # a slow request: this handler is busy and reads nothing more
                             await anyio.sleep(quant(1000.0))
@@ -125,6 +134,8 @@ def run(spec, seed, attack=None, flood=None, probes=None):
                         log.append(("app", sim.now(), "s", "send", (client.remote_address(), client.remote_sid(), 10), reply))
                         await client.send(reply)
                 except anyio.EndOfStream:
+                    if recon:
+                        await anyio.sleep(quant(reconnect["teardown"]))      # a handler whose teardown takes a moment
                     log.append(("app", sim.now(), "s", "done", (client.remote_address(), client.remote_sid(), 10), b""))
                 except Exception as e:
                     out.errors.append(("handler", vport, repr(e)))
@@ -147,7 +158,8 @@ def run(spec, seed, attack=None, flood=None, probes=None):
                             d = await client.recv()
                             got.append(d)
                             log.append(("deliver", sim.now(), "c%d" % i, 0, d))
-                        await anyio.sleep(quant(0.05 + rng.random() * 0.1))
+                        pause = quant(0.05 + rng.random() * 0.1)
+                        await anyio.sleep(pause if spec.round_gap is None else quant(spec.round_gap))
             except BaseException as e:
                 out.connect_errors[i] = repr(e)[:200]
 
@@ -170,6 +182,31 @@ def run(spec, seed, attack=None, flood=None, probes=None):
             except BaseException as e:
                 out.flood_error = repr(e)[:200]
                 raise
+
+        async def reconnector():
+            s = spec.settings(1 if spec.server_version != 0 else 0)
+            creds = None
+            if spec.key:
+                creds, _ = ps.make_credentials(s, random.Random(seed * 31 + 55), s["kerberos.key_size"], pid=5555, server_key=spec.key)
+            await anyio.sleep(quant(reconnect.get("start", 0.3)))
+            out.recon_results = []
+            try:
+                async with prudp.connect_transport(s, SERVER[0], SERVER[1]) as tr:
+                    out.probe_addrs.add(tr.socket.local_address())
+                    for j in range(reconnect["cycles"]):
+                        try:
+                            async with tr.connect(reconnect["vport"], 10, creds) as client:
+                                got = None
+                                await client.send(b"RECON:%d" % j)
+                                with anyio.move_on_after(quant(0.5)):
+                                    got = await client.recv()
+                                out.recon_results.append(("connected", got))
+                        except Exception as e:
+                            out.recon_results.append(("failed", repr(e)[:80]))
+            except BaseException as e:
+                if isinstance(e, (anyio.get_cancelled_exc_class(),)):
+                    raise
+                out.recon_results.append(("transport-failed", repr(e)[:80]))
 
         async def prober():
             async with anyio.create_task_group() as ptg:
@@ -224,6 +261,8 @@ def run(spec, seed, attack=None, flood=None, probes=None):
                             tg.start_soon(flooder)
                         if probes:
                             tg.start_soon(prober)
+                        if reconnect:
+                            tg.start_soon(reconnector)
                         await anyio.sleep(quant(spec.rounds * 0.6 + 2.0))
                         tg.cancel_scope.cancel()
                     await anyio.sleep(quant(spec.resend_timeout * (spec.resend_limit + 2) + 0.5))
